@@ -78,8 +78,30 @@ pub fn gen_len(max: u32) -> u32 {
 }
 
 pub fn gen_string(cfg: &GenCfg) -> String {
+    if cfg.max_str >= 40 && cfg.classes & (CL_QUOTE | CL_CTRL) != 0 && chance(1, 10) {
+        return gen_edge_string(cfg.classes);
+    }
     let n = gen_len(cfg.max_str);
     gen_string_len(cfg.classes, n)
+}
+
+/// A plain string with exactly one character that needs escaping, placed at the edge of a
+/// 32-byte block (as seen from the start of the string or from its opening quote), and a short
+/// tail: the shape on which block-wise scanners go wrong.
+pub fn gen_edge_string(classes: u32) -> String {
+    let block = *pick(&[32u32, 64, 96]);
+    let pos = (block as i64 + *pick(&[-3i64, -2, -1, 0, 1])).max(0) as usize;
+    let tail = draw(12) as usize;
+    let special = if classes & CL_CTRL != 0 && chance(1, 3) { *pick(&['\n', '\t', '\u{1}']) } else { *pick(&['"', '\\']) };
+    let mut s = String::new();
+    for _ in 0..pos {
+        s.push(*pick(&['a', 'x', ' ', '0']));
+    }
+    s.push(special);
+    for _ in 0..tail {
+        s.push('a');
+    }
+    s
 }
 
 pub fn gen_string_len(classes: u32, n: u32) -> String {
